@@ -12,7 +12,7 @@ import (
 
 func init() {
 	Register(&Scenario{Prop: "C05", Name: "crash-prefixes", Run: scenC05, Weight: 3,
-		Rule: "node T with 0-2 feeder peers, one database (type drawn per run); 3-10 (thorough 3-24) writes on T and on feeders replicated into T under reorder/dup/delay, optionally a clean restart of T mid-history; every acknowledgement (write call returned; EventReplicated received) is stamped with T's persistence-effect count; then EVERY prefix of T's effect log (block puts, cache puts, keystore puts) is materialised as a durable image and recovered in isolation (offline block store) by NewOrbitDB + Open + Load(-1); oracle per prefix: recovered log contains every entry acknowledged at or before the prefix, only entries really written, is closed under next, visible state equals LWW replay of the recovered log, identity equals the pre-crash one once the first NewOrbitDB had returned, and a new write succeeds; one evaluation = one history with all its prefixes; non-trivial = >=1 prefix strictly between two acknowledgements and (with feeders) >=1 replicated batch acknowledged"})
+		Rule: "node T with 0-2 feeder peers, one database (type drawn per run); 3-10 (thorough 3-24) writes on T (single, or bursts of 2-3 concurrent writers released one persistence step at a time while replication goes on) and on feeders replicated into T under reorder/dup/delay, optionally a clean restart of T mid-history; every acknowledgement (write call returned; EventReplicated received) is stamped with T's persistence-effect count; then EVERY prefix of T's effect log (block puts, cache puts, keystore puts) is materialised as a durable image and recovered in isolation (offline block store) by NewOrbitDB + Open + Load(-1); oracle per prefix: recovered log contains every entry acknowledged at or before the prefix, only entries really written, is closed under next, visible state equals LWW replay of the recovered log, identity equals the pre-crash one once the first NewOrbitDB had returned, and a new write succeeds; one evaluation = one history with all its prefixes; non-trivial = >=1 prefix strictly between two acknowledgements and (with feeders) >=1 replicated batch acknowledged"})
 }
 
 type c05ack struct {
@@ -75,7 +75,15 @@ func scenC05(k *K) {
 		nops = k.C.Range(3, 24)
 	}
 	for i := 0; i < nops; i++ {
-		switch k.C.Weighted([]int{8, 1, 2}) {
+		switch k.C.Weighted([]int{8, 1, 2, 2}) {
+		case 3:
+			// concurrent writers on T, stopped between their persistence steps while replication
+			// from the feeders goes on; each one is acknowledged when its own call returns
+			for _, wr := range c.WriteBurst(0, k.C.Range(2, 3), k.C.Chance(3, 4)) {
+				k.W.mu.Lock()
+				acks = append(acks, c05ack{hashes: []string{wr.Hash}, effAt: wr.EffAt, kind: "write"})
+				k.W.mu.Unlock()
+			}
 		case 0:
 			node := k.C.Intn(n)
 			if wr := c.RandomWrite(node); wr != nil && node == 0 {
